@@ -3,6 +3,7 @@ package sym
 import (
 	"fmt"
 	"os"
+	"time"
 	"go/types"
 	"sort"
 	"strings"
@@ -551,6 +552,11 @@ func (m *Machine) panicString(tp *targetPanic) string {
 
 func (m *Machine) resetPathState() {
 	m.steps = 0
+	ps := m.Opts.PathSeconds
+	if ps == 0 {
+		ps = 120
+	}
+	m.pathDeadline = time.Now().Add(time.Duration(ps) * time.Second)
 	m.nvars = 0
 	m.draws = m.draws[:0]
 	m.observes = m.observes[:0]
